@@ -1,0 +1,310 @@
+//! Verification hooks -- compiled only with the cargo feature `verif` (off by default).
+//!
+//! Provides drop-in wrappers for the std atomics used by the synchronisation protocols of this crate,
+//! plus a few explicit "yield point" functions placed before plain (non-atomic) accesses to shared memory.
+//! Every wrapper reports an [Event] to a process-global hook *before* performing the real operation on the
+//! real std atomic (and, for operations whose outcome matters to a scheduler -- compare-exchange, swap --
+//! a second event *after* it). With no hook installed (the default) everything is a pass-through, so the
+//! crate behaves exactly as without the feature.
+//!
+//! External model checkers install a hook through [set_hook()] to take control of thread interleavings.
+
+use std::sync::atomic::{AtomicPtr, Ordering as StdOrdering};
+
+/// What is about to happen (or has just happened, for the `*Ok` / `*Failed` / `SwapSame` variants)
+#[derive(Debug, Clone, Copy, PartialEq, Eq, Hash)]
+pub enum EventKind {
+    /// an atomic load is about to execute
+    Load,
+    /// an atomic store is about to execute
+    Store,
+    /// an atomic read-modify-write (fetch_add, fetch_sub, swap, ...) is about to execute
+    Rmw,
+    /// a compare-exchange is about to execute
+    Cas,
+    /// issued *after* a compare-exchange that succeeded
+    CasOk,
+    /// issued *after* a compare-exchange that failed
+    CasFailed,
+    /// issued *after* a `swap` that changed the stored value
+    SwapChanged,
+    /// issued *after* a `swap` that left the stored value unchanged (spin-flag idiom: the flag was already taken)
+    SwapSame,
+    /// a memory fence
+    Fence,
+    /// a plain (non-atomic) read of shared memory is about to execute
+    PlainRead,
+    /// a plain (non-atomic) write of shared memory is about to execute
+    PlainWrite,
+    /// the calling thread is about to wait (sleep / spin) for somebody else to make progress
+    SpinHint,
+    /// a blocking lock identified by `addr` is about to be acquired
+    LockEnter,
+    /// a blocking lock identified by `addr` is about to be released
+    LockExit,
+}
+
+/// One intercepted operation
+#[derive(Debug, Clone, Copy)]
+pub struct Event {
+    pub kind: EventKind,
+    /// address of the atomic / lock involved (0 when not applicable) -- only meaningful as an identity within one execution
+    pub addr: usize,
+    /// static label of the call site or atomic type
+    pub tag:  &'static str,
+}
+
+pub type Hook = fn(&Event);
+
+static HOOK: AtomicPtr<()> = AtomicPtr::new(std::ptr::null_mut());
+
+/// Installs (or, with `None`, removes) the process-global hook
+pub fn set_hook(hook: Option<Hook>) {
+    let ptr = match hook {
+        Some(f) => f as *mut (),
+        None    => std::ptr::null_mut(),
+    };
+    HOOK.store(ptr, StdOrdering::SeqCst);
+}
+
+#[inline(always)]
+pub fn emit(kind: EventKind, addr: usize, tag: &'static str) {
+    let ptr = HOOK.load(StdOrdering::Relaxed);
+    if !ptr.is_null() {
+        let f: Hook = unsafe { std::mem::transmute::<*mut (), Hook>(ptr) };
+        f(&Event { kind, addr, tag });
+    }
+}
+
+/// A step boundary before a plain read of memory shared without a lock
+#[inline(always)]
+pub fn yield_point_r(tag: &'static str) {
+    emit(EventKind::PlainRead, 0, tag);
+}
+
+/// A step boundary before a plain write of memory shared without a lock
+#[inline(always)]
+pub fn yield_point_w(tag: &'static str) {
+    emit(EventKind::PlainWrite, 0, tag);
+}
+
+/// "This thread is about to wait for somebody else"
+#[inline(always)]
+pub fn spin_hint(tag: &'static str) {
+    emit(EventKind::SpinHint, 0, tag);
+}
+
+/// Brackets a blocking lock
+#[inline(always)]
+pub fn lock_enter<T>(lock: &T, tag: &'static str) {
+    emit(EventKind::LockEnter, lock as *const T as usize, tag);
+}
+
+/// Brackets a blocking lock
+#[inline(always)]
+pub fn lock_exit<T>(lock: &T, tag: &'static str) {
+    emit(EventKind::LockExit, lock as *const T as usize, tag);
+}
+
+// re-exports of otherwise crate-private items that external checkers need to name
+pub use crate::incremental_averages::AtomicIncrementalAverage64;
+pub use crate::streams_manager::StreamsManagerBase;
+
+
+/// Drop-in replacements for `std::sync::atomic::*`
+pub mod atomic {
+    use super::{emit, EventKind};
+    pub use std::sync::atomic::Ordering;
+
+    /// see [std::sync::atomic::fence()]
+    #[inline(always)]
+    pub fn fence(order: Ordering) {
+        emit(EventKind::Fence, 0, "fence");
+        std::sync::atomic::fence(order);
+    }
+
+    macro_rules! int_atomic {
+        ($name: ident, $std: ty, $prim: ty, $tag: literal) => {
+            #[repr(transparent)]
+            #[derive(Default)]
+            pub struct $name($std);
+
+            impl $name {
+                #[inline(always)]
+                pub const fn new(v: $prim) -> Self {
+                    Self(<$std>::new(v))
+                }
+                #[inline(always)]
+                fn addr(&self) -> usize {
+                    self as *const Self as usize
+                }
+                /// direct access to the wrapped std atomic -- no event is reported
+                #[inline(always)]
+                pub fn raw(&self) -> &$std {
+                    &self.0
+                }
+                #[inline(always)]
+                pub fn load(&self, order: Ordering) -> $prim {
+                    emit(EventKind::Load, self.addr(), $tag);
+                    self.0.load(order)
+                }
+                #[inline(always)]
+                pub fn store(&self, v: $prim, order: Ordering) {
+                    emit(EventKind::Store, self.addr(), $tag);
+                    self.0.store(v, order)
+                }
+                #[inline(always)]
+                pub fn swap(&self, v: $prim, order: Ordering) -> $prim {
+                    emit(EventKind::Rmw, self.addr(), $tag);
+                    let old = self.0.swap(v, order);
+                    emit(if old == v { EventKind::SwapSame } else { EventKind::SwapChanged }, self.addr(), $tag);
+                    old
+                }
+                #[inline(always)]
+                pub fn compare_exchange(&self, current: $prim, new: $prim, success: Ordering, failure: Ordering) -> Result<$prim, $prim> {
+                    emit(EventKind::Cas, self.addr(), $tag);
+                    let result = self.0.compare_exchange(current, new, success, failure);
+                    emit(if result.is_ok() { EventKind::CasOk } else { EventKind::CasFailed }, self.addr(), $tag);
+                    result
+                }
+                /// executed as the strong version: spurious failures are not explored
+                #[inline(always)]
+                pub fn compare_exchange_weak(&self, current: $prim, new: $prim, success: Ordering, failure: Ordering) -> Result<$prim, $prim> {
+                    self.compare_exchange(current, new, success, failure)
+                }
+                #[inline(always)]
+                pub fn get_mut(&mut self) -> &mut $prim {
+                    self.0.get_mut()
+                }
+                #[inline(always)]
+                pub fn into_inner(self) -> $prim {
+                    self.0.into_inner()
+                }
+            }
+
+            impl std::fmt::Debug for $name {
+                fn fmt(&self, f: &mut std::fmt::Formatter<'_>) -> std::fmt::Result {
+                    std::fmt::Debug::fmt(&self.0, f)
+                }
+            }
+
+            impl From<$prim> for $name {
+                fn from(v: $prim) -> Self {
+                    Self::new(v)
+                }
+            }
+        }
+    }
+
+    macro_rules! int_atomic_arith {
+        ($name: ident, $prim: ty, $tag: literal) => {
+            impl $name {
+                #[inline(always)]
+                pub fn fetch_add(&self, v: $prim, order: Ordering) -> $prim {
+                    emit(EventKind::Rmw, self.addr(), $tag);
+                    self.0.fetch_add(v, order)
+                }
+                #[inline(always)]
+                pub fn fetch_sub(&self, v: $prim, order: Ordering) -> $prim {
+                    emit(EventKind::Rmw, self.addr(), $tag);
+                    self.0.fetch_sub(v, order)
+                }
+                #[inline(always)]
+                pub fn fetch_max(&self, v: $prim, order: Ordering) -> $prim {
+                    emit(EventKind::Rmw, self.addr(), $tag);
+                    self.0.fetch_max(v, order)
+                }
+                #[inline(always)]
+                pub fn fetch_min(&self, v: $prim, order: Ordering) -> $prim {
+                    emit(EventKind::Rmw, self.addr(), $tag);
+                    self.0.fetch_min(v, order)
+                }
+            }
+        }
+    }
+
+    int_atomic!(AtomicU32,   std::sync::atomic::AtomicU32,   u32,   "AtomicU32");
+    int_atomic!(AtomicU64,   std::sync::atomic::AtomicU64,   u64,   "AtomicU64");
+    int_atomic!(AtomicUsize, std::sync::atomic::AtomicUsize, usize, "AtomicUsize");
+    int_atomic!(AtomicBool,  std::sync::atomic::AtomicBool,  bool,  "AtomicBool");
+    int_atomic_arith!(AtomicU32,   u32,   "AtomicU32");
+    int_atomic_arith!(AtomicU64,   u64,   "AtomicU64");
+    int_atomic_arith!(AtomicUsize, usize, "AtomicUsize");
+
+    impl AtomicBool {
+        #[inline(always)]
+        pub fn fetch_or(&self, v: bool, order: Ordering) -> bool {
+            emit(EventKind::Rmw, self.addr(), "AtomicBool");
+            self.0.fetch_or(v, order)
+        }
+        #[inline(always)]
+        pub fn fetch_and(&self, v: bool, order: Ordering) -> bool {
+            emit(EventKind::Rmw, self.addr(), "AtomicBool");
+            self.0.fetch_and(v, order)
+        }
+    }
+}
+
+
+/// Drop-in replacements for the parts of `crossbeam_channel` used by the crossbeam-backed channels:
+/// each call is reported as one step (crossbeam itself is not looked into)
+pub mod cb {
+    use super::{emit, EventKind};
+    pub use ::crossbeam_channel::{TryRecvError, TrySendError};
+
+    pub struct Sender<T>(::crossbeam_channel::Sender<T>);
+    pub struct Receiver<T>(::crossbeam_channel::Receiver<T>);
+
+    pub fn bounded<T>(cap: usize) -> (Sender<T>, Receiver<T>) {
+        let (tx, rx) = ::crossbeam_channel::bounded(cap);
+        (Sender(tx), Receiver(rx))
+    }
+
+    impl<T> Sender<T> {
+        #[inline(always)]
+        pub fn len(&self) -> usize {
+            emit(EventKind::Load, 0, "cb.len");
+            self.0.len()
+        }
+        #[inline(always)]
+        pub fn is_empty(&self) -> bool {
+            emit(EventKind::Load, 0, "cb.is_empty");
+            self.0.is_empty()
+        }
+        #[inline(always)]
+        pub fn is_full(&self) -> bool {
+            emit(EventKind::Load, 0, "cb.is_full");
+            self.0.is_full()
+        }
+        #[inline(always)]
+        pub fn try_send(&self, msg: T) -> Result<(), TrySendError<T>> {
+            emit(EventKind::Cas, 0, "cb.try_send");
+            let result = self.0.try_send(msg);
+            emit(if result.is_ok() { EventKind::CasOk } else { EventKind::CasFailed }, 0, "cb.try_send");
+            result
+        }
+    }
+
+    impl<T> Receiver<T> {
+        #[inline(always)]
+        pub fn len(&self) -> usize {
+            emit(EventKind::Load, 0, "cb.len");
+            self.0.len()
+        }
+        #[inline(always)]
+        pub fn is_empty(&self) -> bool {
+            emit(EventKind::Load, 0, "cb.is_empty");
+            self.0.is_empty()
+        }
+        /// an empty answer is reported as a plain step (a poll that finds nothing is not a wait)
+        #[inline(always)]
+        pub fn try_recv(&self) -> Result<T, TryRecvError> {
+            emit(EventKind::Cas, 0, "cb.try_recv");
+            let result = self.0.try_recv();
+            if result.is_ok() {
+                emit(EventKind::CasOk, 0, "cb.try_recv");
+            }
+            result
+        }
+    }
+}
